@@ -111,6 +111,7 @@ def main():
             text += " In addition the shared mega workload (props/mega.rs: long model-driven histories mixing every command kind, re-prepares, rebind/reuse/long-data executions, chained responses, repeated headers, replies around 256 packets, megabyte commands, dead-id operations) is run under this property's own monitor" + (" over TLS against its plaintext twin." if pid == "C18" else ".")
             tech += "; shared mega-history workload under the same oracle"
         text += EXTRA.get(pid, "")
+        text += " Before a sixth of the cases one to three predecessor connections run on the same thread and end badly (write error inside a reply, backend error inside a row, abandoned long data, ...): what they leave behind must not matter."
         checks.append({
             "property_id": pid,
             "quick_cmd": "./check %s quick" % pid,
